@@ -37,6 +37,7 @@ PF = gen.Profile(
     subslot=False,
     deps=0.55,
     gaps=True,
+    dup_edges=True,
     onstart=True,
     precedes=True,
     container_deps=True,
@@ -55,6 +56,8 @@ PF = gen.Profile(
     max_slots=12,
     start_tod=True,
 )
+PF_WIDE = replace(PF, calendars=False, zones=False, limits=False, task_limits=False, res_groups=False, depth=1, min_tasks=10, max_tasks=14, max_res=2,
+                  deps=0.25, max_slots=4, milestones=False)
 PF_PLAIN = replace(PF, calendars=False, zones=False, limits=False, task_limits=False, res_groups=False, depth=2)
 
 
@@ -208,6 +211,8 @@ def campaigns(tier):
                  describe="D0 with calendars, zones, limits, groups, teams, nesting"),
         Campaign("plain", "hyp", evaluate=eval_project, strategy=lambda: gen.project_specs(PF_PLAIN), n=700 if q else 15000,
                  describe="D0 on the default calendar: DAGs, priorities, gaps, pins, milestones, leaves, teams"),
+        Campaign("wide", "hyp", evaluate=eval_project, strategy=lambda: gen.project_specs(PF_WIDE), n=300 if q else 6000,
+                 describe="10-14 sibling tasks on one level competing for 1-2 resources (ties beyond the ninth sibling)"),
         Campaign("universe", "enum", evaluate=eval_desc, items=enum_items(tier, seed), exhaustive=not q,
                  describe="bounded universe U" + (" (complete)" if not q else " (1/64 slice selected by VERIF_SEED)")),
     ]
